@@ -75,22 +75,22 @@ DRV = {  # name -> (ret call, out call)
 }
 
 
-def drv_main(be, nl, thorough=False):
+def drv_main(be, path, nl, thorough=False):
+    """path: 0 = returned (O = Logged), 1 = caller buffer (Some(out) over a Logged buffer)"""
     B = ["let (mut short, mut long) = (false, false);"]
     for n in nl:
         B.append("{")
         B += ["    " + s for s in setup2(be, n)]
         B.append(f"    let w = any_window::<{n}>(1);")
-        for d, (r, o) in DRV.items():
-            B.append("    " + r.format(N=n))
-            B.append("    " + o.format(N=n))
+        for d, calls in DRV.items():
+            B.append("    " + calls[path].format(N=n))
         B.append(f"    short |= w < {n};")
         B.append(f"    long |= w > {n};")
         B.append("}")
     if max(nl) >= 2:
         B.append('kani::cover!(short, "window shorter than the series");')
     B.append('kani::cover!(long, "window longer than the series");')
-    add(f"c10_drv_{be}_{ns(nl)}", B, max(nl) + 4, thorough)
+    add(f"c10_drv_{be}_{('ret', 'out')[path]}_{ns(nl)}", B, max(nl) + 4, thorough)
 
 
 def selector(cases, n):
@@ -220,11 +220,14 @@ def w0_kernels(n, thorough=False):
 
 
 def main():
-    for be in ("vec", "nd", "dv"):
-        drv_main(be, [0, 1], False)
-        drv_main(be, [2], False)
-        drv_main(be, [3], False)
-        drv_main(be, [4], True)
+    for path in (0, 1):
+        # Vec: every length; Array1 (same fast-path text, other uget) and DefView (default bodies): N = 3 quick
+        for nl in ([0, 1], [2], [3]):
+            drv_main("vec", path, nl, False)
+            drv_main("nd", path, nl, nl != [3])
+            drv_main("dv", path, nl, nl != [3])
+        for be in ("vec", "nd", "dv"):
+            drv_main(be, path, [4], True)
     w0_empty()
     for be in ("vec", "nd"):
         w0_ret(be, 2)
